@@ -13,7 +13,23 @@ pub enum ChildEnd {
     Signaled(i32),
     /// wall-clock watchdog (never a verdict)
     TimedOut,
+    /// the child slept in a system call without consuming any CPU for BLOCKED_SECS seconds:
+    /// it is blocked for ever (e.g. reading a FIFO nobody writes to)
+    Blocked,
     ForkFailed,
+}
+
+pub const BLOCKED_SECS: u32 = 12;
+
+/// (state, utime + stime in clock ticks) of a process, from /proc.
+fn proc_state(pid: i32) -> Option<(char, u64)> {
+    let s = std::fs::read_to_string(format!("/proc/{}/stat", pid)).ok()?;
+    let rest = &s[s.rfind(')')? + 2..];
+    let f: Vec<&str> = rest.split_whitespace().collect();
+    let state = f.first()?.chars().next()?;
+    let utime: u64 = f.get(11)?.parse().ok()?;
+    let stime: u64 = f.get(12)?.parse().ok()?;
+    Some((state, utime + stime))
 }
 
 pub const EXIT_PANIC: i32 = 101;
@@ -80,6 +96,9 @@ pub fn in_child(cpu_secs: u64, wall_secs: u64, f: impl FnOnce() -> Vec<u8>) -> C
     unsafe { libc::close(fds[1]) };
     let mut out = Vec::new();
     let mut timed_out = false;
+    let mut blocked = false;
+    let mut idle_secs = 0u32;
+    let mut last_cpu = u64::MAX;
     {
         let mut pfd = libc::pollfd { fd: fds[0], events: libc::POLLIN, revents: 0 };
         let deadline = std::time::Instant::now() + std::time::Duration::from_secs(wall_secs);
@@ -96,6 +115,20 @@ pub fn in_child(cpu_secs: u64, wall_secs: u64, f: impl FnOnce() -> Vec<u8>) -> C
                 continue;
             }
             if r == 0 {
+                // one second without output: is the child asleep in a system call with no CPU
+                // progress at all?  (A runnable child starved of CPU is in state R, not S.)
+                match proc_state(pid) {
+                    Some(('S', cpu)) if cpu == last_cpu => idle_secs += 1,
+                    Some((_, cpu)) => {
+                        idle_secs = 0;
+                        last_cpu = cpu;
+                    }
+                    None => {}
+                }
+                if idle_secs >= BLOCKED_SECS {
+                    blocked = true;
+                    break;
+                }
                 continue;
             }
             match file.read(&mut buf) {
@@ -106,13 +139,13 @@ pub fn in_child(cpu_secs: u64, wall_secs: u64, f: impl FnOnce() -> Vec<u8>) -> C
             }
         }
     }
-    if timed_out {
+    if timed_out || blocked {
         unsafe {
             libc::kill(pid, libc::SIGKILL);
             let mut st = 0;
             libc::waitpid(pid, &mut st, 0);
         }
-        return ChildEnd::TimedOut;
+        return if blocked { ChildEnd::Blocked } else { ChildEnd::TimedOut };
     }
     let mut st = 0;
     loop {
